@@ -339,6 +339,9 @@ func (p *Parser) parseMergeStatement() (ast.Statement, error) {
 	// Parse target table
 	tableRef, err := p.parseTableReference()
 	if err != nil {
+		if isPropagatedError(err) {
+			return nil, err
+		}
 		return nil, goerrors.WrapError(goerrors.ErrCodeInvalidSyntax, "error parsing MERGE target table", models.Location{}, "", err)
 	}
 	stmt.TargetTable = *tableRef
@@ -365,6 +368,9 @@ func (p *Parser) parseMergeStatement() (ast.Statement, error) {
 	// Parse source table (could be a table or subquery)
 	sourceRef, err := p.parseTableReference()
 	if err != nil {
+		if isPropagatedError(err) {
+			return nil, err
+		}
 		return nil, goerrors.WrapError(goerrors.ErrCodeInvalidSyntax, "error parsing MERGE source", models.Location{}, "", err)
 	}
 	stmt.SourceTable = *sourceRef
@@ -390,6 +396,9 @@ func (p *Parser) parseMergeStatement() (ast.Statement, error) {
 
 	onCondition, err := p.parseExpression()
 	if err != nil {
+		if isPropagatedError(err) {
+			return nil, err
+		}
 		return nil, goerrors.WrapError(goerrors.ErrCodeInvalidSyntax, "error parsing MERGE ON condition", models.Location{}, "", err)
 	}
 	stmt.OnCondition = onCondition
@@ -447,6 +456,9 @@ func (p *Parser) parseMergeWhenClause() (*ast.MergeWhenClause, error) {
 		p.advance() // Consume AND
 		condition, err := p.parseExpression()
 		if err != nil {
+			if isPropagatedError(err) {
+				return nil, err
+			}
 			return nil, goerrors.WrapError(goerrors.ErrCodeInvalidSyntax, "error parsing WHEN condition", models.Location{}, "", err)
 		}
 		clause.Condition = condition
@@ -510,6 +522,9 @@ func (p *Parser) parseMergeAction(clauseType string) (*ast.MergeAction, error) {
 
 			value, err := p.parseExpression()
 			if err != nil {
+				if isPropagatedError(err) {
+					return nil, err
+				}
 				return nil, goerrors.WrapError(goerrors.ErrCodeInvalidSyntax, "error parsing SET value", models.Location{}, "", err)
 			}
 			setClause.Value = value
@@ -566,6 +581,9 @@ func (p *Parser) parseMergeAction(clauseType string) (*ast.MergeAction, error) {
 			for {
 				value, err := p.parseExpression()
 				if err != nil {
+					if isPropagatedError(err) {
+						return nil, err
+					}
 					return nil, goerrors.WrapError(goerrors.ErrCodeInvalidSyntax, "error parsing INSERT value", models.Location{}, "", err)
 				}
 				action.Values = append(action.Values, value)
